@@ -773,7 +773,10 @@ func (db *DB) searchAll(o Object, field, operator string, value interface{}, con
 	fp := fieldPath(field)
 	searchType := search.valueTypeString()
 
-	for obj, err := iter.next(); err == nil && err != ErrEOI; obj, err = iter.next() {
+	// obj and err must not be shadowed by the loop: an object which cannot be
+	// read has to make the search fail, not to truncate silently the results
+	var obj Object
+	for obj, err = iter.next(); err == nil && err != ErrEOI; obj, err = iter.next() {
 		var test *indexedField
 		var value interface{}
 		var ok bool
@@ -802,11 +805,11 @@ func (db *DB) searchAll(o Object, field, operator string, value interface{}, con
 		}
 	}
 
-	if err == ErrEOI {
-		err = nil
+	if err != ErrEOI {
+		return &Search{db: db, err: err}
 	}
 
-	return newSearch(db, o, f, err)
+	return newSearch(db, o, f, nil)
 
 }
 
